@@ -381,13 +381,14 @@ def check_liquidate_after_consumed_exit(repo, rep):
     rid = "C10-R6"
     rep.rule(rid, "liquidate() always submits its exit: Strategy.liquidate followed by _detect_and_handle_entry_and_exit_modifications is "
                   "interpreted in the state after a partial exit was FILLED, when the remembered declaration of that kind happens to be "
-                  "equal to what liquidate() declares (same remaining quantity, same price) and no exit order is active any more: "
+                  "equal to what liquidate() declares (same remaining quantity, same price) and no exit order is active any more - the consumed "
+                  "declaration being of the kind liquidate() uses, or of the other kind (a stop-loss filled in profit, a take-profit at a loss): "
                   "exactly one reduce-only MARKET order for the remaining quantity must be submitted (winning position -> the "
                   "take-profit declaration, losing -> the stop-loss declaration)")
     S = {"buy": W.enum_value(repo, "sides", "BUY"), "sell": W.enum_value(repo, "sides", "SELL")}
     T = {k: W.enum_value(repo, "order_types", k) for k in ("MARKET", "LIMIT", "STOP")}
     for ptype, sg in (("long", 1), ("short", -1)):
-        for winning in (True, False):
+        for winning, consumed in ((True, 'same'), (False, 'same'), (True, 'other'), (False, 'other')):
             smp = {"cur": CUR, "P": F(1, 2), "E": (CUR - 10 * sg) if winning else (CUR + 10 * sg), "now": F(0), "t_created": F(0)}
 
             def mk(dec):
@@ -397,6 +398,9 @@ def check_liquidate_after_consumed_exit(repo, rep):
                 pos.attrs["pnl"] = (A("cur") - A("E")) * A("P") * R.const(sg)
                 row = lambda *r: Arr2([Arr(list(x)) for x in r])
                 kind = "take_profit" if winning else "stop_loss"
+                if consumed == "other":
+                    # the filled partial exit was of the other kind (a stop-loss in profit / a take-profit at a loss)
+                    kind = "stop_loss" if winning else "take_profit"
                 # the consumed declaration: (remaining qty, current price) - its order has been executed, nothing is active
                 st.attrs[kind] = row((A("P"), A("cur")))
                 st.attrs["_" + kind] = row((A("P"), A("cur")))
@@ -409,21 +413,22 @@ def check_liquidate_after_consumed_exit(repo, rep):
                     it.call(it.getattr(st, "_detect_and_handle_entry_and_exit_modifications"), [], {})
                 return it, thunk
             for out in explore(mk, 64):
-                key = f"{ptype}|{'winning' if winning else 'losing'}"
+                key = f"{ptype}|{'winning' if winning else 'losing'}" + ("" if consumed == "same" else "|consumed-other-kind")
                 if out.kind != "return":
-                    rep.violation(rid, f"liquidate|{key}|raises", f"liquidate() after a consumed identical declaration ({key}) raises {out.value}")
+                    rep.violation(rid, "liquidate|raises" + ("" if consumed == "same" else "|consumed-other-kind"),
+                                  f"liquidate() after a consumed identical declaration ({key}) raises {out.value}")
                     continue
                 subs = submitted(out.interp.w)
                 ok = len(subs) == 1 and subs[0].attrs.get("type") == T["MARKET"] and subs[0].attrs.get("reduce_only") is True \
                     and subs[0].attrs.get("side") == (S["sell"] if sg > 0 else S["buy"]) \
                     and isinstance(subs[0].attrs.get("qty"), R) and abs(out.interp.numeric(subs[0].attrs["qty"], smp)) == smp["P"]
                 if not ok:
-                    rep.violation(rid, "liquidate|ignored", f"liquidate() on a {ptype} position ({'winning' if winning else 'losing'}) whose remembered "
+                    rep.violation(rid, "liquidate|ignored" + ("" if consumed == "same" else "|consumed-other-kind"), f"liquidate() on a {ptype} position ({'winning' if winning else 'losing'}) whose remembered "
                                                             f"{'take-profit' if winning else 'stop-loss'} declaration equals (remaining qty, current price) submits "
                                                             f"{[describe(o) for o in subs] or 'nothing'}: the declaration is compared with the remembered one, found unmodified, and the "
                                                             f"position stays open without an exit")
                 rep.instance(rid, key, {"case": key, "submitted": [describe(o) for o in subs]})
-    rep.floor(rid, 4)
+    rep.floor(rid, 8)
 
 
 def check_close_and_cancel(repo, rep):
